@@ -640,10 +640,29 @@ def build_item(repo, ext, unit_path):
     return new_text, new_origin, src, info
 
 
-def generate(repo, unit_path, generators=None):
+def generate(repo, unit_path, generators=None, auto=None):
+    """auto: list of (relpath, parent_anchor, new_anchor): rule T9, items of the same source file that an extracted item
+    refers to (a const, or a private helper function introduced by an edit) are sliced too, verbatim and without a contract,
+    right after the item that refers to them."""
     meta, blocks = parse_unit(unit_path)
     g = Generated()
     g.meta = meta
+    if auto:
+        nb = []
+        for b in blocks:
+            nb.append(b)
+            if b.kind == 'extract':
+                for (rel, parent, new_anchor) in auto:
+                    if b.extract.relpath == rel and b.extract.anchor == parent and not getattr(b.extract, 'is_auto', False):
+                        e2 = Extract(rel, new_anchor, b.unit_line)
+                        e2.rules = [r for r in b.extract.rules if r in ('T1', 'T2')]
+                        e2.props = []
+                        e2.is_auto = True
+                        e2.contract_only = False
+                        b2 = Block('extract', b.unit_line)
+                        b2.extract = e2
+                        nb.append(b2)
+        blocks = nb
     for b in blocks:
         if b.kind == 'text':
             for ln, line in b.lines:
@@ -676,5 +695,8 @@ def generate(repo, unit_path, generators=None):
                 g.lines.append(l)
                 pos += len(l) + 1
             info['gen_lines'] = [start_line + 1, len(g.lines)]
+            if getattr(ext, 'is_auto', False):
+                info['auto_sliced'] = True
+                info['rules'] = sorted(set(info['rules'] + ['T9']))
             g.items.append(info)
     return g
